@@ -7,7 +7,7 @@ LEVEL_TEXT = (
     "(Props/C08.v). Tied to resolve.py by correspondence and by resolving every prefix of every explored list."
 )
 RULE = (
-    "resolve: every sequence up to length 3 (quick) / 4 (thorough) over a 21-symbol alphabet (exhaustive), sampled "
+    "resolve: every sequence up to length 3 (quick) / 4 (thorough) over a 24-symbol alphabet (exhaustive), sampled "
     "longer sequences, extracted lists; for each, every prefix is resolved on fresh copies and compared with the "
     "restriction. Non-trivial = some group has >= 2 members; distinct by the symbol sequence / document."
 )
